@@ -114,7 +114,37 @@ def sweep_masked(tier, seed):
         yield dict(n=n, size=size, reg=r, seed=seed)
 
 
-CHECKERS = {'masked': (check_masked, sweep_masked)}
+def check_empty_round(inp):
+  """A round in which no client has an example: the full-batch server gradient and the mean update are 0, not NaN,
+  also inside a stateful (momentum) optimizer, so the next ordinary round is not poisoned."""
+  from fedjax.algorithms import mime_lite
+  from fedjax.core import optimizers
+  which = inp['alg']
+  rs = np.random.RandomState(0)
+
+  def ds(n):
+    return cds.ClientDataset({'x': rs.randn(n, 2).astype(np.float32), 'y': rs.randn(n).astype(np.float32)})
+  hp = cds.ShuffleRepeatBatchHParams(batch_size=2, num_epochs=1, seed=1)
+  php = cds.PaddedBatchHParams(batch_size=3)
+  base = optimizers.sgd(0.05, momentum=0.9)
+  alg = (mime.mime(pel, base, hp, php, 1.0) if which == 'mime' else mime_lite.mime_lite(pel, base, hp, php, 1.0))
+  st = alg.init({'w': jnp.asarray([0.5, -0.5]), 'b': jnp.asarray(0.1)})
+  rounds = [[0, 0], [3, 2]]
+  for r, sizes in enumerate(rounds):
+    clients = [(b'c%d' % i, ds(n), jax.random.PRNGKey(10 * r + i)) for i, n in enumerate(sizes)]
+    st, _ = alg.apply(st, clients)
+    for leaf in jax.tree_util.tree_leaves((st.params, st.opt_state)):
+      if not np.all(np.isfinite(np.asarray(leaf))):
+        return (f'{which}: after round {r + 1} (client sizes {sizes}; round 1 had no example at all) the server state contains '
+                'NaN: the full-batch gradient of an empty cohort is 0/0 instead of 0')
+
+
+def sweep_empty_round(tier, seed):
+  yield dict(alg='mime')
+  yield dict(alg='mime_lite')
+
+
+CHECKERS = {'masked': (check_masked, sweep_masked), 'empty_round': (check_empty_round, sweep_empty_round)}
 
 if __name__ == '__main__':
   sys.exit(common.main(CHECKERS))
